@@ -342,6 +342,26 @@ pub fn run(run: Run) -> ! {
             }
         }
     }
+    // different custom easings evaluated back to back at the same x must not influence each other
+    {
+        let es: Vec<(u8, Easing, PolyEasing)> = [1u8, 2, 3, 4, 5].iter().map(|&i| (i, Easing::Custom(Box::new(PolyEasing(i))), PolyEasing(i))).collect();
+        for j in 0..=(1u32 << 12) {
+            let x = j as f32 / 4096.0;
+            for a in 0..es.len() {
+                for b in 0..es.len() {
+                    if a == b {
+                        continue;
+                    }
+                    custom_checks += 2;
+                    let ya = es[a].1.calc(x);
+                    let yb = es[b].1.calc(x);
+                    if ya.to_bits() != es[a].2.calc(x).to_bits() || yb.to_bits() != es[b].2.calc(x).to_bits() {
+                        acc.sink.add("custom-not-used-as-given:interleaved-customs", (a * 8 + b) as u64, || (format!("Custom(f{}).calc({x}) then Custom(f{}).calc({x}) gave {ya}, {yb}; the functions give {}, {}", es[a].0, es[b].0, es[a].2.calc(x), es[b].2.calc(x)), json!({"customs": [es[a].0, es[b].0], "x": fj(x)})));
+                    }
+                }
+            }
+        }
+    }
     let pts: u64 = acc.per.iter().map(|p| p.n).sum();
     let mut cov = Map::new();
     cov.insert("states".into(), json!(pts / 29));
